@@ -31,20 +31,20 @@ REGISTRY = {
             "assocSet_get_same", "assocSet_get_other", "set_tx_meta_effect", "set_account_meta_effect"],
     "C10": ["store_independent", "world_never_requested", "batchQuery_no_world", "cache_never_forgets",
             "cacheMerge_faithful"],
-    "C11": ["flag_only_gates_overdraft", "overdraft_gated", "store_independent"],
+    "C11": ["flag_only_gates_overdraft", "overdraft_gated", "store_independent", "interpreter_keeps_no_state"],
     "C12": ["text_run_never_panics", "run_never_panics", "evalExpr_never_panics", "getBalance_store_failure", "run_preload_failure",
             "meta_store_failure", "runBalancesQuery_no_call"],
     "C13": ["digitsVal_eq_posValue", "digitsVal_append_digit", "ratio_literal_exact", "percent_literal_exact",
             "percent_frac_literal_exact", "portion_var_ratio", "portion_var_percent", "portion_var_ratio_rejected",
             "roundtrip_string", "roundtrip_asset", "roundtrip_account", "roundtrip_portion", "roundtrip_number",
-            "roundtrip_monetary"], "C14": ["parse_text_sound", "parse_sound", "parse_unparse", "lex_ident_not_keyword", "lex_fixed_text", "lexAll_agrees_with_lex", "lexAll_errors_in_text", "lexAll_tokens_in_text", "eofPos_in_text", "syntax_error_on_token_in_text", "syntax_error_at_eof_in_text", "lexer_error_range_in_text", "show_never_panics", "syntax_error_range_wf", "show_syntax_error_never_panics", "splitLines_ne_nil",
+            "roundtrip_monetary"], "C14": ["parser_keeps_no_state", "parse_text_sound", "parse_sound", "parse_unparse", "lex_ident_not_keyword", "lex_fixed_text", "lexAll_agrees_with_lex", "lexAll_errors_in_text", "lexAll_tokens_in_text", "eofPos_in_text", "syntax_error_on_token_in_text", "syntax_error_at_eof_in_text", "lexer_error_range_in_text", "show_never_panics", "syntax_error_range_wf", "show_syntax_error_never_panics", "splitLines_ne_nil",
             "percent_literal_exact", "percent_frac_literal_exact", "ratio_literal_exact"],
     "C15": ["lex_layout_insertion_partial", "parse_layout_insertion_partial", "layout_insertion_fails_comment_after_asset", "layout_insertion_fails_newline_after_slashes", "parse_render", "parse_unparse", "parse_unparse_expr", "unparse_numbers_in_range", "lex_render", "best_of_lexable", "parse_ranges_ok", "parseTokens_ranges_ok", "parseTokens_call_ranges_nodup", "rangesOk_nested", "parseTokens_exprs_nested", "parse_left_assoc", "parse_layout_independent", "parse_complete", "lex_sorted", "lex_located", "lexLoop_fuel_irrelevant", "lex_lengths", "gtEq_refl", "gtEq_total", "gtEq_trans", "gtEq_antisymm", "gtEq_iff", "contains_mono", "contains_disjoint"],
     "C16": ["text_names_exact", "unbound_exact", "duplicate_exact", "unused_exact", "resolution_exact", "valid_expr_no_error", "valid_has_no_error"], "C17": ["text_clean_check_sound", "parse_parser_inv", "clean_check_sound", "silent_check_no_sendall_shape_error", "checkExpression_sound",
-            "checkExpression_errors_mono", "checkExpression_declared"], "C18": ["text_check_never_panics", "check_never_panics", "check_total", "symbols_never_panic", "hover_never_panics", "goto_never_panics",
+            "checkExpression_errors_mono", "checkExpression_declared"], "C18": ["analysis_state_is_its_tables", "parser_keeps_no_state", "text_check_never_panics", "check_never_panics", "check_total", "symbols_never_panic", "hover_never_panics", "goto_never_panics",
             "lspHover_never_panics", "check_keeps_parse_diags", "complete_is_benign_expr",
             "lexAll_errors_in_text", "lexAll_tokens_in_text", "eofPos_in_text", "syntax_error_on_token_in_text", "lexer_error_range_in_text"],
-    "C19": ["text_hover_complete", "lsp_state_is_latest", "lsp_hover_answers_latest", "lsp_unknown_document", "lsp_no_cross_document",
+    "C19": ["lsp_keeps_no_package_state", "analysis_state_is_its_tables", "text_hover_complete", "lsp_state_is_latest", "lsp_hover_answers_latest", "lsp_unknown_document", "lsp_no_cross_document",
             "lsp_queries_pure", "hover_expr_sound", "hover_expr_complete", "goto_is_declaration",
             "hover_text_is_decl_type", "frame_roundtrip", "frames_roundtrip", "readFrame_ok_splits",
             "server_wire", "server_output_exact", "serverSpec_eq_lspRun", "lsp_over_the_wire"],
